@@ -1058,7 +1058,8 @@ pub fn run(out: &mut Out, tier: &str, seed: u64, prop: &str) {
     #[cfg(feature = "ext")]
     if prop == "C19" || prop == "C06" {
         let targeted = ["a[b ;c]", "a[b] [c]", "a[[b]]", "a[b]c]", "a[b][c]", "x ; [", "p[a,b,]", "p[,a]", "p[a \u{e9}]", "p[]", "p[ ]", "p[a-]", "p[ a , b ]",
-            "${VP_HOME_DIR}/x[dev]", "p[${VP_EMPTY}]", "${VP_EMPTY}", "file://localhost/p", "file://localhost", "file:p", "FILE:///p", "file:localhost/pkg-1.0-py3-none-any.whl[extra] ; python_version >= '3.8'", "file:localhost/p", "file:/localhost/p", "file:localhost", "file:./localhost/p", "file:///a%20b#c%2541", "git+https://h/p[x]#egg", "h://x", "hg+static-http://h/p",
+            "${VP_HOME_DIR}/x[dev]", "p[${VP_EMPTY}]", "${VP_EMPTY}", "https://example.org/p.whl# ; 'a' == 'b'", "/srv/p-1.0.tar.gz; ; os_name ~= 'x'", "/srv/x.whl#[tests] ; 'a' == 'b' and python_version >= os_name", "https://example.org/p.whl# ; 'a' == 'b' or os_name == 'nt'", "/srv/p.whl ; 'a' == 'b'",
+            "file://localhost/p", "file://localhost", "file:p", "FILE:///p", "file:localhost/pkg-1.0-py3-none-any.whl[extra] ; python_version >= '3.8'", "file:localhost/p", "file:/localhost/p", "file:localhost", "file:./localhost/p", "file:///a%20b#c%2541", "git+https://h/p[x]#egg", "h://x", "hg+static-http://h/p",
             "p;q", "p; q", "p ;q", "p #c", "p# c", "p\n; m", "p\r x", "p\r\n", "", " ", "[x]", "a]", "a[", "p ; os_name == 'a' x", "p;", "p; ", "p#", "p[x]; ", "p[x]# y", "./a b", "./a b ; os_name == 'a'",
             // malformed extras behind a variable whose value is longer / shorter than its reference, ASCII and not
             "${VP_LONG}/foo-1.0-py3-none-any.whl[dev,]", "${VP_LONG}[,]", "${VP_HOME_DIR}/\u{43f}\u{430}\u{43a}\u{435}\u{442}[dev,]", "${VP_EMPTY}\u{65e5}\u{672c}[a b]", "${VP_LONG}/x[\u{e9}]", "${VP_TOKEN_1}\u{e9}\u{e9}[a,,b]", "./${VP_LONG}[dev ; os_name == 'a'",
